@@ -491,7 +491,6 @@ func bodyOfCall(fn *gf.Fn, call *ast.CallExpr) *ast.BlockStmt {
 	return fn.Body
 }
 
-
 // closedByStop: names of the struct fields (channels) that the Stop method closes.
 func (c *Ctx) closedByStop() map[string]bool {
 	out := map[string]bool{}
